@@ -169,13 +169,28 @@ def add (t : Time) (rhs : Delta) : Res Time := (overflowing_add_signed t rhs).bi
 /-- `impl Sub<TimeDelta> for NaiveTime` -/
 def sub (t : Time) (rhs : Delta) : Res Time := (overflowing_sub_signed t rhs).bind fun p => .ok p.1
 
+/-- the reduction of the `u64` seconds of a `core::time::Duration` before the conversion to
+`TimeDelta` (after the repair of the std-Duration finding): a duration of a day or more stays at
+least a day long, so that a leap-second operand is left exactly as with the full duration -/
+def std_reduce (secs : Int) : Int := if secs ≥ 86400 then secs % 86400 + 86400 else secs
+
 /-- `impl Add<core::time::Duration> for NaiveTime` (`secs: u64`, `nanos: u32 < 10^9`) -/
 def add_std (t : Time) (secs nanos : Int) : Res Time :=
-  match Delta.new (secs % (2 * 24 * 60 * 60)) nanos with
+  match Delta.new (std_reduce secs) nanos with
   | some d => add t d
   | none => .panic
 /-- `impl Sub<core::time::Duration> for NaiveTime` -/
 def sub_std (t : Time) (secs nanos : Int) : Res Time :=
+  match Delta.new (std_reduce secs) nanos with
+  | some d => sub t d
+  | none => .panic
+
+/-- the pinned code reduced the seconds modulo two days (kept for the counterexample) -/
+def add_std_pinned (t : Time) (secs nanos : Int) : Res Time :=
+  match Delta.new (secs % (2 * 24 * 60 * 60)) nanos with
+  | some d => add t d
+  | none => .panic
+def sub_std_pinned (t : Time) (secs nanos : Int) : Res Time :=
   match Delta.new (secs % (2 * 24 * 60 * 60)) nanos with
   | some d => sub t d
   | none => .panic
